@@ -750,6 +750,34 @@ func genStore(r *rng, tier string, idx int, o *out, do func(string) string) stri
 			shape += "," + name
 		}
 	}
+	if kind != "mem" && opened > 0 && idx%24 == 7 {
+		// a long epoch: several hundred saves in one store (the index of a file store grows past a page), then the answers of
+		// the refreshed and of the reopened store over the tail, the head and the whole range
+		g := gs[r.intn(opened)]
+		n := g.lastSaved
+		total := 380 + r.intn(120)
+		for k := 0; k < total; k++ {
+			n++
+			m := genMsg(r)
+			if len(m) > 6 {
+				m = m[:1+r.intn(6)]
+			}
+			res := do(fmt.Sprintf("save %s %d %s", g.sid, n, hx(m)))
+			parseCtr(res, g)
+		}
+		g.lastSaved = n
+		for _, step := range []string{"refresh", "reopen"} {
+			do(step + " " + g.sid)
+			do(fmt.Sprintf("get %s %d %d", g.sid, n-3, n))
+			do(fmt.Sprintf("get %s %d %d", g.sid, 1, 3))
+			do(fmt.Sprintf("iter %s %d %d 0", g.sid, n-total/2, n-total/2+2))
+		}
+		res := do(fmt.Sprintf("save %s %d %s", g.sid, n+1, hx(genMsg(r))))
+		parseCtr(res, g)
+		g.lastSaved = n + 1
+		do(fmt.Sprintf("get %s %d %d", g.sid, n, n+1))
+		o.kind("long-epoch")
+	}
 	o.nontrivial(shape)
 	return "store"
 }
